@@ -287,7 +287,26 @@ void save_svalue (svalue_t * v, char **buf) {
     }
 }
 
+static int restore_internal_size_1 (char **str, int is_mapping, int depth);
+
+/* The pre-scan recurses once per nesting level of the text, and so do restore_array(),
+ * restore_mapping() and restore_class() after it.  save_svalue() never writes more than
+ * MAX_SAVE_SVALUE_DEPTH levels: a text nested deeper is damaged (or hostile), and is
+ * refused here before the recursion can use up the C stack. */
+static int restore_nesting = 0;
+
 static int restore_internal_size (char **str, int is_mapping, int depth) {
+  int ret;
+
+  if (restore_nesting >= MAX_SAVE_SVALUE_DEPTH)
+    return 0;
+  restore_nesting++;
+  ret = restore_internal_size_1 (str, is_mapping, depth);
+  restore_nesting--;
+  return ret;
+}
+
+static int restore_internal_size_1 (char **str, int is_mapping, int depth) {
   register char *cp = *str;
   int size = 0;
   char c, delim, index = 0;
